@@ -90,29 +90,54 @@ def run(ctx):
         return out
 
     stats = {"ops": 0, "condensing_children": 0, "default_valued_updates": 0, "missing_answers": 0, "hash_calls": 0}
+    def current(states_maps, par):
+        return states_maps[par]
+
     for h in range(n_hist):
         lim = rng.choice([1, 2, 20, None])
         S = cls[lim]
         nops = rng.randint(3, 10 if ctx.quick else 30)
         ops = []
         states = []
+        maps = []                      # the harness's own record of each state's explicit bindings (to build no-op updates)
+        quiet = h % 3 == 0             # every third history: no hash()/repr()/== before the final == matrix
         for i in range(nops):
             if not states or rng.random() < 0.12:
                 d = rand_dict(4)
                 ops.append(("root", d))
                 states.append(S(to_py(d), p))
+                maps.append(dict(d))
             else:
                 par = rng.randrange(len(states)) if rng.random() < 0.5 else len(states) - 1
                 d = rand_dict(3)
+                r2 = rng.random()
+                if r2 < 0.3 and maps[par]:
+                    # a NO-OP update: rebind 1-2 keys to the value they already have in the parent (siblings that denote
+                    # the same map but store different keys)
+                    ks = rng.sample(sorted(maps[par]), min(len(maps[par]), rng.randint(1, 2)))
+                    d = [(k, maps[par][k]) for k in ks]
+                elif r2 < 0.4:
+                    d = []
                 ops.append(("child", par, d))
                 if states[par]._ancestors >= (lim or 0):
                     stats["condensing_children"] += 1
                 states.append(states[par].make_child(to_py(d)))
+                m2 = dict(maps[par]); m2.update(dict(d)); maps.append(m2)
+                if rng.random() < 0.35 and maps[par]:
+                    # a TWIN: a sibling from the same parent denoting the same map through a different update
+                    # (the same bindings plus a re-binding of a key to the value it already has in the parent)
+                    extra = [k for k in sorted(maps[par]) if k not in dict(d)]
+                    if extra:
+                        k = rng.choice(extra)
+                        d2 = list(d) + [(k, maps[par][k])]
+                        ops.append(("child", par, d2))
+                        states.append(states[par].make_child(to_py(d2)))
+                        m3 = dict(maps[par]); m3.update(dict(d2)); maps.append(m3)
             for (sym, arg), v in d:
                 if (sym, v) in defaults_code:
                     stats["default_valued_updates"] += 1
             # implementation-only observations that mutate representation in place
-            r = rng.random()
+            r = 1.0 if quiet else rng.random()
             if r < 0.25:
                 hash(states[rng.randrange(len(states))])
                 stats["hash_calls"] += 1
@@ -131,7 +156,18 @@ def run(ctx):
                     row.append(None)
                     stats["missing_answers"] += 1
             obs.append(row)
+        # == between siblings FIRST, before anything has hashed (and thereby condensed) them: the answer must not depend
+        # on whether hash()/repr() ran earlier; then the full matrix; a pair keeps the conjunction of all its answers
+        first = {}
+        for i in range(len(states)):
+            for j in range(len(states)):
+                if i != j and ops[i][0] == "child" and ops[j][0] == "child" and ops[i][1] == ops[j][1]:
+                    first[(i, j)] = (states[i] == states[j])
         eqm = [[a == b for b in states] for a in states]
+        for (i, j), v in first.items():
+            if v != eqm[i][j]:
+                stats["eq_answer_changed"] = stats.get("eq_answer_changed", 0) + 1
+                eqm[i][j] = v
         hm = [[hash(a) == hash(b) for b in states] for a in states]
         raw.append({"limit": lim, "ops": ops, "obs": obs, "eq": eqm, "hasheq": hm})
         nontrivial.add(json.dumps([lim, ops], default=str))
